@@ -7,13 +7,24 @@ import subprocess
 from .repoenv import VRT
 
 
+def _die_with_parent():
+    """preexec hook: the harness process is killed when the worker that started it dies (a worker stopped by the watchdog
+    must not leave a harness behind that spins in code under test)."""
+    try:
+        import ctypes
+        import signal
+        ctypes.CDLL("libc.so.6", use_errno=True).prctl(1, signal.SIGKILL)      # PR_SET_PDEATHSIG
+    except Exception:  # noqa: BLE001
+        pass
+
+
 def run(subcmd: str, cases: list[dict], timeout: float = 600.0) -> list[dict]:
     """Feed all cases to one `vrt <subcmd>` process; returns one result dict per case (same order)."""
     if not cases:
         return []
     inp = "\n".join(json.dumps(c, separators=(",", ":")) for c in cases) + "\n"
     p = subprocess.run([str(VRT), subcmd], input=inp.encode(), stdout=subprocess.PIPE,
-                       stderr=subprocess.PIPE, timeout=timeout)
+                       stderr=subprocess.PIPE, timeout=timeout, preexec_fn=_die_with_parent)
     lines = [l for l in p.stdout.decode().splitlines() if l.strip()]
     out = []
     for l in lines:
@@ -36,7 +47,7 @@ def run_valgrind(subcmd: str, cases: list[dict], timeout: float = 1800.0):
         return None, {"available": bool(vg), "errors": 0, "log": ""}
     inp = "\n".join(json.dumps(c, separators=(",", ":")) for c in cases) + "\n"
     p = subprocess.run([vg, "--error-exitcode=97", "--leak-check=no", "--quiet", str(VRT), subcmd], input=inp.encode(),
-                       stdout=subprocess.PIPE, stderr=subprocess.PIPE, timeout=timeout)
+                       stdout=subprocess.PIPE, stderr=subprocess.PIPE, timeout=timeout, preexec_fn=_die_with_parent)
     err = p.stderr.decode(errors="replace")
     out = []
     for l in p.stdout.decode().splitlines():
